@@ -106,7 +106,7 @@ class Run:
                   "status": r["status"], "dropped": r["dropped"], "notes": r["notes"],
                   "calls_by_contract": r["called"], "obligations": len(r["obligations"]),
                   "proved": sum(o["verdict"] == "proved" for o in r["obligations"]),
-                  "requires_satisfiable": r.get("requires_sat")}
+                  "requires_satisfiable": r.get("requires_sat"), "exit_reachable": r.get("exits")}
             self.functions.append(fn)
             if r["status"] == "crash":
                 raise RuntimeError("engine crash in %s:\n%s" % (r["qualname"], r["reason"]))
@@ -115,6 +115,9 @@ class Run:
                 continue
             if r.get("requires_sat") == "unsat":
                 self.undecided("%s:%s" % (r["file"], r["qualname"]), "contradictory precondition (vacuous contract)")
+            if r.get("exits") in ("unsat", "no-exit"):
+                self.undecided("%s:%s" % (r["file"], r["qualname"]),
+                               "the hypotheses of every exit path are contradictory (assumed contracts / axioms / invariants exclude every run: vacuous)")
             own = reg.contracts.get(r["qualname"])
             if own is not None and own.note and not own.assumed:
                 self.trust("%s: %s" % (r["qualname"], own.note))
